@@ -381,7 +381,15 @@ func (o Opts) Text() string {
 type FAddr struct {
 	Kind string
 	I, N int
+	// Err selects the error the fake server answers with when this address is in
+	// e_faults (index into faultErrs; 0 = 500 InternalError). Not part of the
+	// Coq term: for the model a fault is a fault.
+	Err int
 }
+
+// faultErrs: the real code branches only on NotFound / AlreadyExists / NoMatch,
+// so every other kind must be handled like an internal error.
+var faultErrs = []int{500, 403, 409, 400, 503}
 
 func (f FAddr) Coq() string {
 	switch f.Kind {
@@ -501,7 +509,7 @@ func (e Env) Coq() string {
 func (e Env) Text() string {
 	var p []string
 	for _, a := range e.Faults {
-		p = append(p, "fault:"+a.Key())
+		p = append(p, fmt.Sprintf("fault:%s/%d", a.Key(), faultErrs[a.Err]))
 	}
 	for k, w := range e.Waits {
 		var d []string
